@@ -5,11 +5,11 @@
 wt="$1"; src="$2"; name="$3"
 cd "$wt" || exit 3
 git checkout -q -- . ; git status --short | grep -q . && { echo "worktree dirty"; exit 3; }
-PYTHONPATH="$wt" /venv/bin/python "$src/demo.py" > /tmp/cs_clean.log 2>&1; rc_clean=$?
+PYTHONPATH="$wt" /venv/bin/python "$src/demo.py" > /tmp/cs_clean_$name.log 2>&1; rc_clean=$?
 git apply "$src/patch.diff" || { echo "$name: patch does not apply"; exit 3; }
-PYTHONPATH="$wt" /venv/bin/python "$src/demo.py" > /tmp/cs_mut.log 2>&1; rc_mut=$?
-PYTHONPATH="$wt" timeout 900 /venv/bin/python -m pytest -q -p no:cacheprovider --timeout=900 test > /tmp/cs_test.log 2>&1
-summary=$(tail -1 /tmp/cs_test.log)
+PYTHONPATH="$wt" /venv/bin/python "$src/demo.py" > /tmp/cs_mut_$name.log 2>&1; rc_mut=$?
+PYTHONPATH="$wt" timeout 900 /venv/bin/python -m pytest -q -p no:cacheprovider --timeout=900 test > /tmp/cs_test_$name.log 2>&1
+summary=$(tail -1 /tmp/cs_test_$name.log)
 git checkout -q -- .
 echo "$name: demo clean rc=$rc_clean, demo mutated rc=$rc_mut, tests: $summary"
 case "$summary" in *"2 failed, 57 passed"*) ok=1;; *) ok=0;; esac
